@@ -51,10 +51,6 @@ Theorem C17_clause8_duplicate_service_name_refuted :
   wf_definitions witness8 = true /\ findings [] witness8 = [[]; []] /\ names_distinct [] witness8 = false
   /\ no_shadow witness8 = true /\ ~ mapper_matches [] witness8.
 Proof. exact clause8_refuted. Qed.
-Theorem C17_clause9_output_header_refuted :
-  wf_definitions witness9 = true /\ findings [] witness9 = [[9%nat]] /\ names_distinct [] witness9 = true
-  /\ no_shadow witness9 = true /\ ~ mapper_matches [] witness9.
-Proof. exact clause9_refuted. Qed.
 Theorem C17_clause10_message_shadows_element_refuted :
   wf_definitions witness10 = true /\ findings [] witness10 = [[]] /\ names_distinct [] witness10 = true
   /\ no_shadow witness10 = false /\ ~ mapper_matches [] witness10.
